@@ -11,6 +11,7 @@ import StyluaModel.Generated.ExitOps
 import StyluaModel.Model.Run
 import Driver.DiffProto
 import Driver.ConfigProto
+import Driver.SelectProto
 import StyluaModel.Model.Stdin
 /-
 `modeld`: one request per line on stdin, one answer per line on stdout.
@@ -100,6 +101,8 @@ def handle (line : String) : String :=
       let r := StyluaModel.Stdin.run fmt o [1]
       let out := match r.stdout with | .text t => (if t == [1] then "input" else "formatted") | .diff => "diff" | .nothing => "nothing"
       s!"{out} {r.exit}"
+  | ["optiontables"] => "ok"
+  | ["select", g, r, body] => Driver.SelectProto.handle g r body
   | ["faithful", i] => Driver.ExprProto.handleFaithful i
   | ["semeq", i, o] => Driver.ExprProto.handleSem i o
   | _ => "bad-op"
